@@ -131,9 +131,10 @@ inductive SetRes
   | panic (site : String)
 deriving Repr
 
-/-- `MessageSet::from_slice` (fetch.rs:390-441), including the `return from_vec(..)` on the first
-    compressed entry.  `depth` bounds nesting (each level recurses through `from_vec`), `fuel` bounds
-    the entry loop (each entry consumes ≥ 12 bytes). -/
+/-- `MessageSet::from_slice` (fetch.rs:390-441): plain entries at or above the requested offset are collected; a
+    compressed entry is decompressed, decoded as an inner set (same offset filter, same CRC flag) and its messages
+    are appended; a short last entry ends the set silently.  `depth` bounds nesting (each level recurses through
+    `from_vec`), `fuel` bounds the entry loop (each entry consumes ≥ 12 bytes). -/
 def fromSlice (cx : Codecs) (debug : Bool) : Nat → Nat → Bytes → Int → Bool → List Message → SetRes
   | _, 0, _, _, _, acc => .ok acc
   | depth, fuel+1, raw, req, validate, acc =>
@@ -146,25 +147,30 @@ def fromSlice (cx : Codecs) (debug : Bool) : Nat → Nat → Bytes → Int → B
       let c := (toU 1 pm.attr) % 8      -- `attr & 0x07` on an i8 (two's complement)
       if c = 0 then
         fromSlice cx debug depth fuel rest req validate (if off ≥ req then acc ++ [⟨off, pm.key, pm.value⟩] else acc)
-      else if c = 1 then
-        match cx.gunzip pm.value with
-        | none => .err .io
-        | some v =>
+      else
+        let inner : Except SetRes Bytes :=
+          if c = 1 then
+            match cx.gunzip pm.value with
+            | none => .error (.err .io)
+            | some v => .ok v
+          else if c = 2 then
+            match validateStream pm.value with
+            | .error e => .error (.err e)
+            | .ok s =>
+              match snappyChunks cx.unsnap (s.length + 1) s [] with
+              | .err => .error (.err .io)
+              | .panic => .error (.panic "snappy.rs:167 split_at")
+              | .ok v => .ok v
+          else .error (.err .unsupportedCompression)
+        match inner with
+        | .error r => r
+        | .ok v =>
           match depth with
           | 0 => .panic "stack"
-          | d+1 => fromSlice cx debug d (v.length + 1) v req validate []
-      else if c = 2 then
-        match validateStream pm.value with
-        | .error e => .err e
-        | .ok s =>
-          match snappyChunks cx.unsnap (s.length + 1) s [] with
-          | .err => .err .io
-          | .panic => .panic "snappy.rs:167 split_at"
-          | .ok v =>
-            match depth with
-            | 0 => .panic "stack"
-            | d+1 => fromSlice cx debug d (v.length + 1) v req validate []
-      else .err .unsupportedCompression
+          | d+1 =>
+            match fromSlice cx debug d (v.length + 1) v req validate [] with
+            | .ok ms => fromSlice cx debug (d+1) fuel rest req validate (acc ++ ms)
+            | r => r
 
 structure FetchPartition where
   partition : Int
@@ -188,6 +194,12 @@ inductive RespRes
   | panic (site : String)
 deriving Repr
 
+/-- the offset a partition was asked for (`preqs.get(partition).map_or(0, |p| p.offset)`) -/
+def requestedOffset (req : Option FetchRequest) (topic : Bytes) (p : Int) : Int :=
+  match req with
+  | some rq => match rq.get topic p with | some (off, _) => off | none => 0
+  | none => 0
+
 /-- `Partition::read` -/
 def readPartition (cx : Codecs) (debug : Bool) (depth : Nat) (req : Option FetchRequest) (topic : Bytes) (validate : Bool)
     (bs : Bytes) : Except (Sum Err String) (FetchPartition × Bytes) :=
@@ -199,9 +211,7 @@ def readPartition (cx : Codecs) (debug : Bool) (depth : Nat) (req : Option Fetch
       pure (p, e, hw, set, r) : Except Err _) with
   | .error e => .error (.inl e)
   | .ok (p, e, hw, set, r) =>
-    let proffs := match req with
-      | some rq => match rq.get topic p with | some (off, _) => off | none => 0
-      | none => 0
+    let proffs := requestedOffset req topic p
     match fromSlice cx debug depth (set.length + 1) set proffs validate [] with
     | .err e => .error (.inl e)
     | .panic s => .error (.inr s)
